@@ -7,14 +7,19 @@ import gen_prog
 
 ID = "C18"
 PROP_FILE = "props/C18.v"
-COQ_TARGETS = ["props/C18.v"]
-THEOREMS = ["C18_contains", "C18_parent", "C18_node", "C18_tables"]
+COQ_TARGETS = ["props/C18.v", "model/BookHist.v"]
+THEOREMS = ["C18_contains", "C18_parent", "C18_node", "C18_tables", "C18_history", "C18_remove_after_add_refuted"]
 TRUSTED_BASE = [
     "Coq 8.16.1 kernel, vm_compute for the in-coqc correspondence",
     "model/Book.v: hand transcription of BookkeepingVisitor.generic_visit as the ordered list of table writes, tied by K-book",
     "tools/impl/c18_book.py (exports the pristine tree shape and the tables with ids canonicalised to traversal indices)",
+    "translator tools/translators/gen_book.py (order of removal / addition in AstRewriter.visit, the removal condition, the tables add_bookkeeping / remove_bookkeeping touch)",
+    "model/BookHist.v: the class-level tables over a history of instrumentations, tied by K-hist (tools/impl/c18_hist.py: whole modules and single functions, "
+    "the same path again, other paths, collection on / off; every tree kept alive so that ids are not reused)",
 ]
 ASSUMPTIONS = [
+    "history theorem: the nodes of a new instrumentation are live objects whose ids are not in the tables yet, and its module id is not the module id of a bookkeeper "
+    "whose code can still run (hist_fresh; checked on every real history of K-hist)",
     "the shared singleton nodes of CPython ASTs (Load/Store/Del, operators) are outside the tables' contract: they are one object reused "
     "everywhere and are never delivered to handlers",
     "statements only occur in list fields of their parent (true of Python's grammar; checked on every exported tree)",
@@ -104,7 +109,85 @@ def oracle_case(case, im):
 
 
 def fails_on_impl(case):
+    if "ops" in case:
+        return hist_oracle(case, run_hist([case])[0])
     return oracle_case(case, run_impl([case])[0])
+
+
+# ---------------------------------------------------------------- K-hist: histories of instrumentations (model/BookHist.v)
+def gen_hist_case(rng):
+    npaths = rng.choice([1, 2, 2, 3])
+    ops = []
+    versions = {}
+    for _ in range(rng.choice([2, 3, 4, 5])):
+        path = rng.randrange(npaths)
+        kind = "module" if path not in versions or rng.random() < 0.65 else "function"
+        if path in versions and rng.random() < 0.5:
+            src = versions[path]                                  # the same text again (re-import, second decoration)
+            if rng.random() < 0.5:
+                src = src + "zz_added = %d\n" % rng.randrange(9)  # an edited file: one more line
+        else:
+            src = "def fh(p=1):\n    q = p + %d\n    return q\n" % rng.randrange(9) + gen_prog.gen_program(random.Random(rng.random()), "core", nstmts=rng.choice([1, 2, 3]))
+        versions[path] = src
+        ops.append({"path": path, "kind": kind, "src": src})
+    return {"ops": ops, "gc": rng.random() < 0.85}
+
+
+def run_hist(cases):
+    out = []
+    for i in range(0, len(cases), 50):
+        rc, res, o = lib.impl_run("c18_hist.py", cases[i:i + 50], timeout=900)
+        if res is None:
+            raise RuntimeError("implementation harness failed:\n" + o[-3000:])
+        out += res
+    return out
+
+
+def valid_ops(case):
+    """the instrumentations whose code can still run: per path the latest whole-module one (when collection is on) and everything after it"""
+    val = {}
+    for j, op in enumerate(case["ops"]):
+        if case.get("gc", True) and op["kind"] == "module":
+            val[op["path"]] = [j]
+        else:
+            val.setdefault(op["path"], []).append(j)
+    return sorted(j for v in val.values() for j in v)
+
+
+def hist_oracle(case, im):
+    if "crash" in im:
+        return {"what": "instrumentation crashed: " + im["crash"], "tb": im.get("tb")}
+    for j in valid_ops(case):
+        r = im["ops"][j]
+        op = case["ops"][j]
+        if r["present"] != r["n"]:
+            return {"what": "instrumentation %d of the history (%s, path %d) can still run but only %d of its %d nodes are still in ast_node_by_id" % (j, op["kind"], op["path"], r["present"], r["n"]),
+                    "kind": "hist-nodes", "op": j}
+        if not r["links_ok"]:
+            return {"what": "instrumentation %d: a containing / parent entry points into another instrumentation's tree" % j, "kind": "hist-links", "op": j}
+        last = {}
+        for l, want, got, starts in r["lines"]:
+            last[l] = (want, got, starts)
+        for l, (want, got, starts) in last.items():
+            if got != want:
+                return {"what": "instrumentation %d (%s, path %d) can still run but the line table of its module returns %s for line %d (its statement there is node %s)"
+                                % (j, op["kind"], op["path"], got, l, want), "kind": "hist-lines", "op": j}
+    return None
+
+
+def hist_cases_file(cases, impl):
+    L = ["From Coq Require Import List NArith Bool.", "Import ListNotations.", "From PyccoloV Require Import gen.BookOrder model.BookHist.",
+         "Definition one (gc : bool) (ops : list op) := let s := BookHist.run book_remove_first gc ops st0 in",
+         "  map (fun o => let b := o_bk o in (length (filter (gn s) (b_ids b)), map (fun li => gl s (b_mid b) (fst li)) (b_lines b), map b_mid (valid s (o_path o)))) ops."]
+    for c, im in zip(cases, impl):
+        ops = []
+        for j, (op, r) in enumerate(zip(c["ops"], im["ops"])):
+            ids = "; ".join("%d" % (j * 100000 + i) for i in range(r["n"]))
+            lines = "; ".join("(%d, %d)" % (l, want[0] * 100000 + want[1]) for l, want, _, _ in r["lines"])
+            ops.append("{| o_path := %d; o_kind := %s; o_bk := {| b_mid := %d; b_ids := [%s]; b_lines := [%s] |} |}"
+                       % (op["path"], "KModule" if op["kind"] == "module" else "KFunction", r["mid"], ids, lines))
+        L.append("Eval vm_compute in one %s [%s]%%N." % ("true" if c.get("gc", True) else "false", "; ".join(ops)))
+    return "\n".join(L) + "\n"
 
 
 def signature(case, f):
@@ -155,18 +238,72 @@ def run(ctx, model_ok):
                     validated += 1
         if mism:
             ctx.tie_broken("correspondence", "model/Book.v and BookkeepingVisitor disagree on %d of %d trees" % (len(mism), len(flat)), json.dumps(mism[0])[:3000])
+    # histories
+    hcases = [dict(r) for r in getattr(ctx, "known_replays", []) + getattr(ctx, "fixed_replays", []) if "ops" in r]
+    while len(hcases) < (100 if ctx.tier == "quick" else 1200):
+        hcases.append(gen_hist_case(rng))
+    himpl = run_hist(hcases)
+    hfail = 0
+    for c, im in zip(hcases, himpl):
+        f = hist_oracle(c, im)
+        if f and hfail < 2:
+            hfail += 1
+            f.update({"case": c, "signature": "unlisted", "kind_": "oracle", "harness": "c18_hist.py"})
+            failures.append(f)
+    hvalidated, hm, not_fresh = 0, [], 0
+    if model_ok:
+        good = [(c, im) for c, im in zip(hcases, himpl) if "ops" in im]
+        shards = [good[i:i + 40] for i in range(0, len(good), 40)]
+        outs = lib.coq_eval_many([("c18_hist_%d" % i, hist_cases_file([c for c, _ in sh], [im for _, im in sh])) for i, sh in enumerate(shards)], timeout=900)
+        for i, sh in enumerate(shards):
+            rc, out = outs["c18_hist_%d" % i]
+            vals = lib.parse_marked(out) if rc == 0 else []
+            if rc != 0 or len(vals) != len(sh):
+                ctx.tie_broken("correspondence", "coqc failed on exported histories (rc=%s, %d/%d)" % (rc, len(vals), len(sh)), out[-3000:])
+                continue
+            for (c, im), v in zip(sh, vals):
+                rows = lib.parse_coq_list(v)
+                if not all(r["fresh"] for r in im["ops"]):
+                    not_fresh += 1
+                mids_valid = sorted(im["ops"][j]["mid"] for j in valid_ops(c))
+                mvalid = sorted({m for (_, _, vl) in rows for m in vl})
+                bad = None
+                for j, ((present, lines, _), r) in enumerate(zip(rows, im["ops"])):
+                    ml = [None if x == "None" else [x[1] // 100000, x[1] % 100000] for x in lines]
+                    il = [got for _, _, got, _ in r["lines"]]
+                    if present != r["present"] or ml != il:
+                        bad = {"case": c, "op": j, "model": {"present": present, "lines": ml}, "impl": {"present": r["present"], "lines": il}}
+                        break
+                if bad is None and mvalid != mids_valid:
+                    bad = {"case": c, "model_valid": mvalid, "expected_valid": mids_valid}
+                if bad:
+                    hm.append(bad)
+                else:
+                    hvalidated += 1
+        if hm:
+            mism += hm
+            ctx.tie_broken("correspondence", "model/BookHist.v and the real tables disagree on %d of %d histories" % (len(hm), len(hcases)), json.dumps(hm[0])[:3000])
+        if not_fresh:
+            ctx.tie_broken("correspondence", "%d real histories do not meet the freshness hypothesis of C18_history (new node ids already in the tables)" % not_fresh, "")
+    validated += hvalidated
     types = {}
     for im in impl:
         for f in im.get("files", []):
             for lx in f["lexical"].values():
                 types[lx["type"]] = types.get(lx["type"], 0) + 1
     return {
-        "evaluations": len(cases), "distinct_nontrivial": len({lib.digest(c) for c in cases}),
+        "evaluations": len(cases) + len(hcases), "distinct_nontrivial": len({lib.digest(c) for c in cases + hcases}),
         "rule": "4 hand-written programs (decorators, annotations, except handlers, match, class) + generated programs (core/wide profiles, 2-4 top-level "
                 "statements after a fixed prelude), 1-3 programs instrumented one after the other under the same tracer; every pristine node of every "
-                "program is looked up in the class-level tables after ALL instrumentations; non-trivial = every case (prelude alone has 60+ nodes)",
+                "program is looked up in the class-level tables after ALL instrumentations; non-trivial = every case (prelude alone has 60+ nodes).  K-hist: histories of "
+                "2-5 instrumentations over 1-3 paths (whole module 65% / a single function of the file; the same text again, an edited text, or new text; collection "
+                "on 85%): afterwards, for every instrumentation whose code can still run, all nodes present, links stay inside its tree, the line table of its module "
+                "returns its own statements; every table compared with model/BookHist.v",
         "samples": [cases[4]["sources"][0][-300:]], "traces_validated": validated,
-        "distribution": {"nodes_checked_against_model": nodes_checked, "node_types": dict(sorted(types.items(), key=lambda x: -x[1])[:25])},
+        "distribution": {"histories": len(hcases), "history_ops": sum(len(c["ops"]) for c in hcases),
+                         "histories_reinstrumenting_a_path": sum(1 for c in hcases if len({o["path"] for o in c["ops"]}) < len(c["ops"])),
+                         "history_kinds": {k: sum(1 for c in hcases for o in c["ops"] if o["kind"] == k) for k in ("module", "function")},
+                         "nodes_checked_against_model": nodes_checked, "node_types": dict(sorted(types.items(), key=lambda x: -x[1])[:25])},
         "failures": failures, "extra": {"model_impl_disagreements": len(mism)},
     }
 
